@@ -13,6 +13,8 @@
 (*          place l (variable / field / element with a numeric index) in    *)
 (*          that frame; ^ and ^mut pointers are the same value (mutability  *)
 (*          is a static matter, C14)                                        *)
+(*          [t |-> "slice", d, l, n]  slice: the array place it references  *)
+(*          (like a pointer) and its length                                 *)
 (* State:   [env |-> stack of scopes of the running function (innermost     *)
 (*           last; a scope is a pair of sequences names / values),          *)
 (*           stack |-> the environments of the suspended callers (outermost *)
@@ -153,6 +155,9 @@ Eval(P, e, st) ==
             IF a.sig # "norm" THEN a
             ELSE LET i == Eval(P, e.i, a.st) IN
                  IF i.sig # "norm" THEN i
+                 ELSE IF a.v.t = "slice"
+                      THEN (IF ~FitsNat(i.v.b) \/ ToNat(i.v.b) >= a.v.n THEN Fault(i.st, "index out of bounds")
+                            ELSE Norm(LRead(a.v.l, EnvAt(i.st, a.v.d)).es[ToNat(i.v.b) + 1], i.st))
                  ELSE IF ~FitsNat(i.v.b) \/ ToNat(i.v.b) >= Len(a.v.es) THEN Fault(i.st, "index out of bounds")
                  ELSE Norm(a.v.es[ToNat(i.v.b) + 1], i.st)
       [] e.e = "fld" ->
@@ -175,6 +180,17 @@ Eval(P, e, st) ==
       [] e.e = "ref" -> LET p == Resolve(P, e.l, st) IN
                         IF p.sig # "norm" THEN p ELSE Norm([t |-> "ptr", d |-> p.v.d, l |-> p.v.l], p.st)
       [] e.e = "deref" -> LET r == Eval(P, e.x, st) IN
+                          IF r.sig # "norm" THEN r ELSE Norm(LRead(r.v.l, EnvAt(r.st, r.v.d)), r.st)
+      \* slices: an array place seen as (place, length); .len of a slice or an array (usize);
+      \* [n]T.(slice) copies the referenced array
+      [] e.e = "slice" -> LET p == Resolve(P, e.l, st) IN
+                          IF p.sig # "norm" THEN p
+                          ELSE Norm([t |-> "slice", d |-> p.v.d, l |-> p.v.l,
+                                     n |-> Len(LRead(p.v.l, EnvAt(p.st, p.v.d)).es)], p.st)
+      [] e.e = "len" -> LET r == Eval(P, e.x, st) IN
+                        IF r.sig # "norm" THEN r
+                        ELSE Norm(IntV(8, FALSE, FromNat(IF r.v.t = "slice" THEN r.v.n ELSE Len(r.v.es), 8)), r.st)
+      [] e.e = "toarr" -> LET r == Eval(P, e.x, st) IN
                           IF r.sig # "norm" THEN r ELSE Norm(LRead(r.v.l, EnvAt(r.st, r.v.d)), r.st)
       \* x.try on an optional: the payload, or leave the function with nil
       [] e.e = "try" -> LET r == Eval(P, e.x, st) IN
@@ -249,7 +265,10 @@ Resolve(P, l, st) ==
             ELSE LET i == Eval(P, l.i, a.st) IN
                  IF i.sig # "norm" THEN i
                  ELSE LET arr == LRead(a.v.l, EnvAt(i.st, a.v.d)) IN
-                      IF ~FitsNat(i.v.b) \/ ToNat(i.v.b) >= Len(arr.es) THEN Fault(i.st, "index out of bounds")
+                      IF arr.t = "slice"       \* an element of what the slice references
+                      THEN (IF ~FitsNat(i.v.b) \/ ToNat(i.v.b) >= arr.n THEN Fault(i.st, "index out of bounds")
+                            ELSE Norm([d |-> arr.d, l |-> [l |-> "idx", a |-> arr.l, k |-> ToNat(i.v.b)]], i.st))
+                      ELSE IF ~FitsNat(i.v.b) \/ ToNat(i.v.b) >= Len(arr.es) THEN Fault(i.st, "index out of bounds")
                       ELSE Norm([d |-> a.v.d, l |-> [l |-> "idx", a |-> a.v.l, k |-> ToNat(i.v.b)]], i.st)
 
 Exec(P, s, st) ==
